@@ -219,6 +219,35 @@ pub mod locks {
     }
 }
 
+/// Drop-in replacement for `std::sync::atomic::AtomicU64` in the version clock: same operations
+/// (everything not listed here goes to the real atomic through `Deref`), plus a scheduling point
+/// right after each `load`, i.e. inside the window between reading a clock shard and the
+/// read-modify-write that follows it.
+pub mod atomics {
+    use std::sync::atomic::Ordering;
+
+    #[derive(Debug, Default)]
+    pub struct AtomicU64(std::sync::atomic::AtomicU64);
+
+    impl AtomicU64 {
+        pub const fn new(value: u64) -> Self {
+            Self(std::sync::atomic::AtomicU64::new(value))
+        }
+        #[inline]
+        pub fn load(&self, order: Ordering) -> u64 {
+            let value = self.0.load(order);
+            super::sched("clock_load");
+            value
+        }
+    }
+    impl std::ops::Deref for AtomicU64 {
+        type Target = std::sync::atomic::AtomicU64;
+        fn deref(&self) -> &Self::Target {
+            &self.0
+        }
+    }
+}
+
 /// Makes every further `io_uring_enter` on this ring fail (the ring's fd number now names
 /// /dev/null) while the ring itself - and whatever the kernel already picked up from its
 /// submission queue - stays alive through its mappings: a failed enter with writes in flight.
